@@ -187,6 +187,13 @@ FUNCS += [
     dict(id='ComponentsNext', file='src/component.rs', fn='next', impl=r"impl<'t> Iterator for Components<'t>", lean='Components.next',
          params=[('self', 'iterself:sent_root=bool,tokens=tokensiter')], ret='mutiter', rtype='Option Component × Components', imports=['TokensNext'], iter=True),
 ]
+# `Display::fmt` as "the text written to the formatter"
+FUNCS += [
+    dict(id='DisplayToken', file='src/token.rs', fn='fmt', impl=r"impl alloc::fmt::Display for Token<'_>", lean='Token.display', params=[('self', 'tok'), ('f', 'fmtr')], ret='fmt', rtype='Bytes', imports=['Decoded']),
+    dict(id='DisplayPointer', file='src/pointer.rs', fn='fmt', impl=r"impl core::fmt::Display for Pointer \{", lean='Pointer.display', params=[('self', 'ptrself'), ('f', 'fmtr')], ret='fmt', rtype='Bytes'),
+    dict(id='DisplayPointerBuf', file='src/pointer.rs', fn='fmt', impl=r"impl core::fmt::Display for PointerBuf \{", lean='PointerBuf.display', params=[('self', 'ptrself'), ('f', 'fmtr')], ret='fmt', rtype='Bytes'),
+    dict(id='DisplayIndex', file='src/index.rs', fn='fmt', impl=r"impl fmt::Display for Index \{", lean='Index.display_fmt', params=[('self', 'errself:index'), ('f', 'fmtr')], ret='fmt', rtype='Bytes'),
+]
 PE_IMPL = r"impl ParseError \{"
 FUNCS += [
     dict(id='ParseErrOffset', file='src/pointer.rs', fn='offset', impl=PE_IMPL, lean='ParseError.offset', params=[('self', 'errself:parseerror')], ret='pure', rtype='Nat'),
@@ -212,7 +219,7 @@ SIBLINGS = {'split_back': ('Pointer.split_back', 'opt(tuple:ptrself,tok)'), 'spl
 
 LEANTY = {'nat': 'Nat', 'bool': 'Bool', 'bytes': 'Bytes', 'cow': 'Cow', 'optnat': 'Option Nat', 'toklist': 'List Bytes',
           'tok': 'Bytes', 'index': 'Index', 'bound': 'Bound', 'ptr': 'Bytes', 'span': 'Span', 'tokself': 'Bytes',
-          'intocow': 'Bytes', 'unit': 'Unit', 'ptrself': 'Bytes', 'vref': 'Loc × Val', 'vroot': 'Val', 'bufself': 'Bytes', 'intotoken': 'Bytes', 'asrefptr': 'Bytes', 'docself': 'Val', 'val': 'Val', 'aref': 'Loc × List Val', 'oref': 'Loc × List (Bytes × Val)', 'assigned': 'Assigned', 'intoval': 'Val', 'resolveerr': 'ResolveErr', 'assignerr': 'AssignErr', 'parseerror': 'ParseError', 'bufval': 'Bytes', 'split': 'Split', 'tokensiter': 'Split', 'component': 'Component', 'components': 'Components', 'bufref': 'Bytes', 'kvlist': 'List (Bytes × Val)', 'vallist': 'List Val'}
+          'intocow': 'Bytes', 'unit': 'Unit', 'ptrself': 'Bytes', 'vref': 'Loc × Val', 'vroot': 'Val', 'bufself': 'Bytes', 'intotoken': 'Bytes', 'asrefptr': 'Bytes', 'docself': 'Val', 'val': 'Val', 'aref': 'Loc × List Val', 'oref': 'Loc × List (Bytes × Val)', 'assigned': 'Assigned', 'intoval': 'Val', 'resolveerr': 'ResolveErr', 'assignerr': 'AssignErr', 'parseerror': 'ParseError', 'bufval': 'Bytes', 'fmtr': 'Unit', 'split': 'Split', 'tokensiter': 'Split', 'component': 'Component', 'components': 'Components', 'bufref': 'Bytes', 'kvlist': 'List (Bytes × Val)', 'vallist': 'List Val'}
 
 # enums the subset may match on / construct: type tag -> [(lean ctor, [rust paths], [field types])]
 ENUMS = {
@@ -705,6 +712,23 @@ class Fn:
                 return self.E(fields['source'], env, ctx, lambda sv, _: self.E(fields['offset'], env, ctx,
                               lambda ov, __: k(f"(ParseIndexError.invalidCharacter {sv} {ov})", 'pie')))
             raise Unsupported("struct literal " + ps)
+        if t == 'writefmt':
+            if self.retkind != 'fmt': raise Unsupported("write! outside a Display impl")
+            fmt = bytes(e[2]); fargs = e[3]
+            def shown(a, ta):
+                if ta == 'cow': return k(f"{a}.bytes", 'bytes')
+                if ta in BYTESLIKE: return k(a, 'bytes')
+                if ta == 'nat': return k(f"(decimal {a})", 'bytes')
+                raise Unsupported("Display of " + ta)
+            if fmt == b"{}" and len(fargs) == 1: return self.E(fargs[0], env, ctx, shown)
+            m = re.fullmatch(rb"\{(\w+)\}", fmt)
+            if m and not fargs and m.group(1).decode() in env: return shown(m.group(1).decode(), env[m.group(1).decode()])
+            if b"{" not in fmt and not fargs: return k('[' + ', '.join(str(b) for b in fmt) + ']', 'bytes')
+            raise Unsupported("format string " + fmt.decode('utf-8', 'replace'))
+        if t == 'mcall' and self.retkind == 'fmt' and e[2] == 'fmt' and len(e[3]) == 1 and e[3][0] == ('path', ['f']):
+            return self.E(e[1], env, ctx, lambda a, ta: k(a, 'bytes') if ta in BYTESLIKE else (k(f"(decimal {a})", 'bytes') if ta == 'nat' else self.bad("fmt of " + ta)))
+        if t == 'mcall' and self.retkind == 'fmt' and e[2] == 'write_str' and e[1] == ('path', ['f']) and len(e[3]) == 1:
+            return self.E(e[3][0], env, ctx, lambda a, ta: k(a, 'bytes') if ta in BYTESLIKE else self.bad("write_str of " + ta))
         if t == 'mcall':
             return self.mcall(e, env, ctx, k)
         if t == 'match':
@@ -1565,6 +1589,8 @@ class Fn:
                 if ta == 'opt(val)': return ctx.ret(f".ok {a}")
                 raise Unsupported("returned " + ta)
             return self.E(e, env, ctx, after_md)
+        if rk == 'fmt':
+            return self.E(e, env, ctx, lambda a, ta: ctx.ret(a) if ta in BYTESLIKE else self.bad("a Display impl that writes " + ta))
         if rk == 'mutiter':
             want = 'opt(tok)' if self.spec['id'] == 'TokensNext' else 'opt(component)'
             def aft_it(a, ta):
